@@ -381,7 +381,7 @@ func schemaStruct(t types.Type, ver string) (*types.Named, *types.Struct) {
 }
 
 func migrationSets(c *Ctx, r *R, fname string, fd *ast.FuncDecl, pkg *packages.Package) {
-	readF := map[string]bool{}     // "v01.T.F"
+	readF := map[string]bool{} // "v01.T.F"
 	visited := map[string]*types.Struct{}
 	setF := map[string]bool{} // "v02.T.F"
 	built := map[string]*types.Struct{}
